@@ -1,4 +1,5 @@
 import Dcg.Proofs.Config
+import Dcg.Proofs.KeyValue
 import Dcg.Gen.CliTables
 /-
 C18 — CLI flags, pyproject.toml settings and generate() arguments agree.
@@ -187,6 +188,77 @@ theorem discover_nearest (ds : List Dir) (i : Nat) (h : discover ds = some i) :
             exact ⟨d'', by simpa using h1, h2, h3⟩
 
 example : discover [⟨false, false⟩, ⟨true, false⟩, ⟨true, true⟩] = some 1 := by decide
+
+/-! ### Value-carrying options (`--http-headers`, `--http-query-parameters`): the spelling
+`name<sep>value` of the command line / pyproject.toml and the pair `(name, value)` of `generate()` -/
+section KeyValue
+open Dcg.Model.KeyValue Dcg.Proofs.KeyValue
+
+/-- The validator cuts an item at the FIRST separator: for every separator-free name and EVERY value
+(one that contains the separator again — a URL or `host:port` in a header, base64 padding in a query
+parameter —, blanks, quotes, any character) `name<sep>value` is accepted and gives
+`(name, value.lstrip())`. -/
+theorem keyvalue_split_at_first_separator (sep : Char) (name value : Str) (h : sep ∉ name) :
+    parseItem sep (name ++ sep :: value) = some (name, lstrip value) := by
+  simp [parseItem, splitFirst_append sep name value h]
+
+/-- The inverse: every pair `(name, value)` that `generate(http_headers=[(name, value)])` takes — name
+without the separator, value not beginning with a blank, otherwise arbitrary — has a command-line /
+pyproject spelling (`name`, separator, any run of blanks, `value`) and the validator gives back exactly
+that pair: the three ways of supplying the option can agree on every such value. -/
+theorem keyvalue_roundtrip (sep : Char) (pad name value : Str) (hn : sep ∉ name)
+    (hp : ∀ c ∈ pad, isSpace c = true) (hv : ∀ c, value.head? = some c → isSpace c = false) :
+    parseItem sep (render sep pad (name, value)) = some (name, value) := by
+  unfold render
+  rw [keyvalue_split_at_first_separator sep name (pad ++ value) hn, lstrip_pad pad value hp,
+    lstrip_id value hv]
+
+/-- the same for the whole list an option carries -/
+theorem keyvalue_items_roundtrip (sep : Char) (pad : Str) (nvs : List (Str × Str))
+    (hp : ∀ c ∈ pad, isSpace c = true)
+    (h : ∀ nv ∈ nvs, sep ∉ nv.1 ∧ ∀ c, nv.2.head? = some c → isSpace c = false) :
+    parseItems sep (nvs.map (render sep pad)) = some nvs := by
+  induction nvs with
+  | nil => rfl
+  | cons nv rest ih =>
+    obtain ⟨n, v⟩ := nv
+    have h0 := h (n, v) (by simp)
+    have hr : parseItems sep (rest.map (render sep pad)) = some rest :=
+      ih (fun x hx => h x (by simp [hx]))
+    unfold parseItems at hr ⊢
+    simp only [List.map_cons, List.mapM_cons, keyvalue_roundtrip sep pad n v h0.1 hp h0.2, hr]
+    rfl
+
+/-- An item is rejected (`Error: Invalid http header / http query parameter`) exactly when it contains
+no separator at all. -/
+theorem keyvalue_rejected_iff_no_separator (sep : Char) (s : Str) :
+    parseItem sep s = none ↔ sep ∉ s := by
+  simp [parseItem, splitFirst_none_iff]
+
+/-- What the validator returns is the text cut at a separator that the name does not contain, and
+nothing but leading blanks of the value is lost. -/
+theorem keyvalue_parse_sound (sep : Char) (s n v : Str) (h : parseItem sep s = some (n, v)) :
+    sep ∉ n ∧ ∃ w, s = n ++ sep :: w ∧ v = lstrip w := by
+  unfold parseItem at h
+  cases hs : splitFirst sep s with
+  | none => simp [hs] at h
+  | some p =>
+    obtain ⟨n', w⟩ := p
+    simp [hs] at h
+    obtain ⟨rfl, rfl⟩ := h
+    obtain ⟨h1, h2⟩ := splitFirst_some sep s n' w hs
+    exact ⟨h1, w, h2, rfl⟩
+
+/-- non-vacuity: values that contain their own separator; a separator-free text is rejected -/
+example :
+    parseItem headerSep "X-Origin: https://h:8443/p".toList = some ("X-Origin".toList, "https://h:8443/p".toList) ∧
+    parseItem querySep "token=abc==".toList = some ("token".toList, "abc==".toList) ∧
+    parseItem headerSep "token=abc==".toList = none ∧
+    parseItems querySep ["a=1".toList, "b= x=y".toList] = some [("a".toList, "1".toList), ("b".toList, "x=y".toList)] ∧
+    headerSep ∉ "X-Origin".toList ∧ (∀ c, "https://h:8443/p".toList.head? = some c → isSpace c = false) := by
+  decide
+
+end KeyValue
 
 /-! ### The three ways of supplying an option set -/
 
